@@ -226,6 +226,8 @@ pub struct Stats {
     pub trees: BTreeSet<String>,
     pub single_faulty_rejected: u64,
     pub fault_not_faulty: u64,
+    pub faulty_kinds_checked: BTreeMap<String, u64>,
+    pub same_base_name_checks: u64,
 }
 
 impl Stats {
@@ -270,6 +272,10 @@ impl Stats {
         self.trees.extend(o.trees.iter().cloned());
         self.single_faulty_rejected += o.single_faulty_rejected;
         self.fault_not_faulty += o.fault_not_faulty;
+        for (k, v) in &o.faulty_kinds_checked {
+            *self.faulty_kinds_checked.entry(k.clone()).or_insert(0) += v;
+        }
+        self.same_base_name_checks += o.same_base_name_checks;
     }
 }
 
@@ -298,6 +304,7 @@ pub struct HistExec {
     pub last_counters: BTreeMap<String, u32>,
     pub last_calls: u64,
     pub last_log: Vec<String>,
+    pub last_log_seq: Vec<u64>,
     pub last_outcome: String,
     pub refs: RefCache,
     /// reference outputs per Project op index: file text digest -> output bytes (when Ok)
@@ -382,6 +389,7 @@ impl HistExec {
             last_counters: BTreeMap::new(),
             last_calls: 0,
             last_log: vec![],
+            last_log_seq: vec![],
             last_outcome: String::new(),
             refs: RefCache::new(),
             version_refs: BTreeMap::new(),
@@ -411,6 +419,7 @@ impl HistExec {
                 self.last_counters.clear();
                 self.last_calls = 0;
                 self.last_log.clear();
+                self.last_log_seq.clear();
                 let _ = op_index;
             }
             Op::Prepopulate { entries } => {
@@ -637,6 +646,7 @@ impl HistExec {
                 self.last_counters = res.counters.clone();
                 self.last_calls = res.calls;
                 self.last_log = res.log.clone();
+                self.last_log_seq = res.log_seq.clone();
             }
         } else {
             // a fault fired: success may still not be reported over a wrong tree
@@ -648,7 +658,47 @@ impl HistExec {
                     step_viol.extend(self.judge_ok(step, &before, &after, &files, &r, &out_rel));
                 }
             } else {
-                // nothing is demanded of the tree; statistics only
+                // Little is demanded of the tree after a failed or killed run — but what it
+                // touched must still lie inside the mirror: every path that is new or changed is
+                // a mirrored `.py` path (any content: the write may be cut short) or a directory
+                // leading to one.  A temporary, lock or stamp file that a killed run leaves behind
+                // is "something else" that was written and is still there.
+                {
+                    let mut allowed_files: BTreeSet<String> = BTreeSet::new();
+                    let mut allowed_dirs: BTreeSet<String> = BTreeSet::new();
+                    allowed_dirs.insert(out_rel.clone());
+                    for f in files.iter() {
+                        let p = format!("{out_rel}/{}", mirrored(&f.path, &self.layout));
+                        let mut cur = Path::new(&p).parent();
+                        while let Some(c) = cur {
+                            let s = c.to_string_lossy().into_owned();
+                            if s.is_empty() {
+                                break;
+                            }
+                            allowed_dirs.insert(s);
+                            cur = c.parent();
+                        }
+                        allowed_files.insert(p);
+                    }
+                    for (p, n) in &after {
+                        if before.get(p) == Some(n) {
+                            continue;
+                        }
+                        let ok = if n.dir { allowed_dirs.contains(p) } else { allowed_files.contains(p) };
+                        if !ok {
+                            step_viol.push(Viol::new(
+                                "wrote_outside_mirror",
+                                step,
+                                format!("{} by a run that then {}: {p}", if before.contains_key(p) { "modified" } else { "created" }, if res.outcome == "crash" { "was killed" } else { "failed" }),
+                            ));
+                        }
+                    }
+                    for p in before.keys() {
+                        if !after.contains_key(p) && !(p.starts_with(&format!("{out_rel}/")) && p.ends_with(".py")) {
+                            step_viol.push(Viol::new("wrote_outside_mirror", step, format!("deleted by a run that then failed: {p}")));
+                        }
+                    }
+                }
                 let changed: Vec<&String> = after.keys().filter(|k| before.get(*k) != after.get(*k)).collect();
                 let py_changed: Vec<&&String> = changed.iter().filter(|k| k.ends_with(".py")).collect();
                 if py_changed.is_empty() {
@@ -756,9 +806,18 @@ impl HistExec {
                 }
             }
         }
-        for p in before.keys() {
+        // Deletions: removing a stale, non-mirrored `.py` inside the output directory (and a
+        // directory that thereby becomes empty) is tolerated — "exactly one .py per .mamba" can
+        // be read as cleaning the outputs of deleted sources.  Anything else that disappears
+        // (somebody's notes.txt, a source file, a bystander) is an effect the property excludes.
+        for (p, n) in before.iter() {
             if !after.contains_key(p) {
-                if p.starts_with(&format!("{out_rel}/")) {
+                let in_target = p.starts_with(&format!("{out_rel}/"));
+                let stale_py = in_target && !n.dir && p.ends_with(".py");
+                let emptied_dir = in_target
+                    && n.dir
+                    && before.iter().filter(|(q, _)| q.starts_with(&format!("{p}/"))).all(|(q, m)| m.dir || q.ends_with(".py"));
+                if stale_py || emptied_dir {
                     self.stats.deleted_in_target_tolerated += 1;
                 } else {
                     v.push(Viol::new("wrote_outside_mirror", step, format!("deleted: {p}")));
@@ -778,9 +837,21 @@ impl HistExec {
                 v.push(Viol::new("compile_error_but_python_written", step, format!("{} {p}", if before.contains_key(p) { "modified" } else { "created" })));
             }
         }
+        // all-or-nothing: a rejected project leaves the tree as it was (the empty output
+        // directory may be created); nothing is removed either, inside or outside the output
+        let _ = out_rel;
         for p in before.keys() {
-            if !after.contains_key(p) && !p.starts_with(&format!("{out_rel}/")) {
-                v.push(Viol::new("wrote_outside_mirror", step, format!("deleted: {p}")));
+            if !after.contains_key(p) {
+                v.push(Viol::new("compile_error_but_tree_changed", step, format!("deleted: {p}")));
+            }
+        }
+        for (p, n) in after {
+            if !n.dir && !p.ends_with(".py") {
+                match before.get(p) {
+                    Some(b) if b == n => {}
+                    Some(_) => v.push(Viol::new("compile_error_but_tree_changed", step, format!("modified: {p}"))),
+                    None => v.push(Viol::new("compile_error_but_tree_changed", step, format!("created: {p}"))),
+                }
             }
         }
         // the single faulty file must be named, and no other project file
@@ -804,17 +875,38 @@ impl HistExec {
                 self.stats.single_faulty_rejected += 1;
                 self.stats.diag_file_checks += 1;
                 let locs = diag_locations(&res.diags);
+                // which project file does a location name: the one with the longest relative
+                // path that is a suffix of the location at a path-component boundary
+                let all_paths: Vec<String> = self.version.files.iter().map(|f| f.path.clone()).collect();
+                let named = |loc: &str| -> Option<String> {
+                    all_paths
+                        .iter()
+                        .filter(|p| loc == p.as_str() || loc.ends_with(&format!("/{p}")))
+                        .max_by_key(|p| p.len())
+                        .cloned()
+                };
                 let base = |p: &str| Path::new(p).file_name().map(|s| s.to_string_lossy().into_owned()).unwrap_or_default();
                 let kb = base(&k);
-                let names_k = locs.iter().any(|l| base(l) == kb) || res.diags.iter().any(|d| d.contains(&kb));
-                if !names_k {
-                    v.push(Viol::new("diagnostic_wrong_or_missing_file", step, format!("no diagnostic names the faulty file {k}; locations: {:?}", locs)));
+                let unique_base = all_paths.iter().filter(|p| base(p) == kb).count() == 1;
+                if !unique_base {
+                    self.stats.same_base_name_checks += 1;
                 }
-                for f in &self.version.files {
-                    if f.path != k {
-                        let fb = base(&f.path);
-                        if locs.iter().any(|l| base(l) == fb) {
-                            v.push(Viol::new("diagnostic_wrong_or_missing_file", step, format!("a diagnostic points into {} although only {k} is faulty", f.path)));
+                let kind = self.version.note.split(':').nth(1).unwrap_or("?").to_string();
+                *self.stats.faulty_kinds_checked.entry(kind).or_insert(0) += 1;
+                let names_k = locs.iter().any(|l| named(l).as_deref() == Some(k.as_str()))
+                    || (unique_base && (locs.iter().any(|l| base(l) == kb) || res.diags.iter().any(|d| d.contains(&kb))));
+                if !names_k {
+                    v.push(Viol::new(
+                        "diagnostic_wrong_or_missing_file",
+                        step,
+                        format!("no diagnostic names the faulty file {k}; locations: {:?}", locs),
+                    ));
+                }
+                for l in &locs {
+                    if let Some(other) = named(l) {
+                        if other != k {
+                            v.push(Viol::new("diagnostic_wrong_or_missing_file", step, format!("a diagnostic points into {other} although only {k} is faulty")));
+                            break;
                         }
                     }
                 }
